@@ -162,6 +162,13 @@ def _worker_inner(prop_id, part_idx, tier, base_seed, widx, nex):
         test()
     except Violation:
         return dict(stats=stats.as_dict(), failure=failure)
+    except Exception as e:  # noqa
+        # Hypothesis could not reproduce a recorded violation when it ran the case again in the same process (the outcome depends on what ran
+        # before - a cache, a leftover of an earlier call): the violation was observed against the real code and is reported with its case
+        if failure.get('case') is not None and type(e).__name__ in ('FlakyFailure', 'Flaky', 'FlakyReplay'):
+            failure['detail'] = str(failure.get('detail')) + ' [not reproduced when the case was run again in the same process: the outcome depends on what ran before]'
+            return dict(stats=stats.as_dict(), failure=failure)
+        raise
     return dict(stats=stats.as_dict(), failure=None)
 
 
